@@ -444,6 +444,12 @@ func (p *progGen) node(b *strings.Builder, depth int) {
 		f := p.incTarget()
 		switch {
 		case f == "":
+			if p.g.Draw(3) == 0 {
+				// a name computed at run time that no loader has, and nobody said if_exists: the
+				// execution fails here, however deep in includes this is
+				b.WriteString(`<x{{ y() }}-{% include lzmissing %}>`)
+				return
+			}
 			b.WriteString(`{% include lzmissing if_exists %}`)
 			return
 		case p.g.Draw(3) == 0:
